@@ -295,12 +295,25 @@ def run_given(stats, strategy, body, max_examples, seed_value, shrink=True):
     @hyp_settings(max_examples, shrink=shrink)
     @given(strategy)
     def test(case):
-        body(case)
+        try:
+            body(case)
+        except Violation as v:
+            if not first:
+                first.append(v)
+            raise
 
+    first = []
     try:
         test()
     except Violation as v:
         stats.violation(v.clause, v.case, v.detail)
+    except hypothesis.errors.FlakyFailure as exc:
+        # the oracle failed on a generated case but not when Hypothesis ran the same case again: the harness
+        # is deterministic, so the code under test carried state over from earlier cases of this process
+        if not first:
+            raise HarnessError(f"hypothesis: {type(exc).__name__}: {exc}") from exc
+        v = first[0]
+        stats.violation(v.clause, v.case, v.detail + " [failed when generated, passed when re-run alone: depends on state that earlier cases left behind in the process]")
     except hypothesis.errors.HypothesisException as exc:
         raise HarnessError(f"hypothesis: {type(exc).__name__}: {exc}") from exc
 
